@@ -21,7 +21,7 @@
    harr or the number of distinct coupons passed the promotion threshold of lg_max, and then
    register j = max value over the coupons of cs folded to slot j mod 2^lg; otherwise lg = lg_max
    and its container holds exactly the distinct coupons of cs. *)
-From DS Require Import Base.Prelude Model.Hll Model.HllUnion Proofs.HllBase Proofs.HllRefine Proofs.HllUnionProofs.
+From DS Require Import Base.Prelude Model.Hll Model.HllUnion Proofs.HllBase Proofs.HllRefine Proofs.HllUnionProofs Proofs.HllUnionAssoc.
 Open Scope N_scope.
 
 (* ---- union_refines, with update_value and reset interleaved (union_interleave): for all lg_max
@@ -64,6 +64,22 @@ Theorem c03_to_sketch_type_independent :
     let '(harr, lg, cs) := spec_run lg_max ops (false, lg_max, []) in
     SrcOK lg (match sk_tag (un_gadget u) with TagArray => true | _ => false end) cs r.
 Proof. exact to_sketch_type_independent. Qed.
+
+(* ---- associative: the result of a union over A, taken with to_sketch(t) for ANY t and merged into a
+   fresh union followed by the operations B, shows the same lg_k, mode, coupons / registers as one union
+   fed A then B (the result sketch represents the first union's Spec state: it is a well-formed input) *)
+Theorem c03_union_associative :
+  forall lg_max A B t, 4 <= lg_max <= 21 -> Forall uop_ok A -> Forall uop_ok B ->
+  exists u0 uA r uAB u2, union_new lg_max = Ok u0 /\ uops_run A u0 = Ok uA /\ union_to_sketch uA t = Ok r /\
+    uops_run (A ++ B) u0 = Ok uAB /\
+    (let '(hA, lA, cA) := spec_run lg_max A (false, lg_max, []) in
+     uop_ok (UMerge (mkIn lA (tag_flag (sk_tag (un_gadget uA))) cA) r) /\
+     uops_run (UMerge (mkIn lA (tag_flag (sk_tag (un_gadget uA))) cA) r :: B) u0 = Ok u2) /\
+    sk_lgk (un_gadget uAB) = sk_lgk (un_gadget u2) /\ sk_tag (un_gadget uAB) = sk_tag (un_gadget u2) /\
+    sk_len (un_gadget uAB) = sk_len (un_gadget u2) /\
+    (forall c, In c (sk_coupons (un_gadget uAB)) <-> In c (sk_coupons (un_gadget u2))) /\
+    (forall j, j < 2 ^ sk_lgk (un_gadget uAB) -> sk_reg (un_gadget uAB) j = sk_reg (un_gadget u2) j).
+Proof. exact union_associative. Qed.
 
 (* ---- union_nonzero.  Full statement (NOT proved; it needs positivity of a sum of binary64 HIP
    increments and of the ln-based composite estimator, which is not modelled):
